@@ -146,6 +146,22 @@ check("C19",
       "Chronological monotonicity of time.Parse∘Unix itself is a standard-library property and is NOT decided (assumption). Signed components are outside the stated domain. " + TRUST,
       "SSA symbolic execution + SMT (cvc5 bit-vectors solved as integers), uninterpreted time.Parse", "DESIGN.md §4 C19")
 
+check("C14",
+      "Re-layout: between the tokens of 7 expressions each gap is filled with 1-2 ARBITRARY Unicode spaces (solver variables constrained by the real "
+      "unicode.IsSpace), a comment with arbitrary characters, a ;;;; directive, or nothing where a delimiter allows it; Dump/DumpTable/error-ness of the "
+      "compiled re-layout must equal the baseline. Formatter: for every text of <=3 (4 thorough) arbitrary characters, and 1-2 arbitrary characters "
+      "inside 11 contexts, IndentByParentheses (once and twice) must give exactly the tokens, string literals and comments that a 50-line reference "
+      "lexer finds in the original; 13 whole expressions must compile identically after formatting.",
+      "Bound: as listed; comments compared modulo trailing blanks; the space in front of a string literal is a token boundary. The genuine defect found here (formatter not string-literal aware) is fixed in /repo. " + TRUST,
+      "SSA symbolic execution over symbolic characters + SMT vs reference lexer", "DESIGN.md §4 C14")
+check("C15",
+      "Expression templates (all trees with <=2 operator nodes quick / 3 thorough over binary infix operators, !, calls, if, list membership) are "
+      "rendered to infix text with minimal parentheses derived from the DOCUMENTED precedence table, with full and with redundant parentheses; every "
+      "binary slot ranges over all 16 infix spellings; the real infix parser must produce the same Dump as the prefix form and both programs must agree "
+      "on arbitrary int64/bool bindings (solver variables).",
+      "Bound: templates as listed; the operator quantifier is discharged by forking (parser is control code), the solver decides the evaluation equivalence. " + TRUST,
+      "SSA symbolic execution + SMT, infix vs prefix differential with a reference precedence table", "DESIGN.md §4 C15")
+
 def main():
     checks = []
     for pid in ALL:
